@@ -107,6 +107,7 @@ def forbidden_scan():
                         if not in_comment:
                             code += line[i]
                         i += 1
+                code = re.sub(r'"[^"]*"', '""', code)      # string literals (e.g. the BIP39 word "admit") are data, not vernacular
                 if re.match(r"\s*Section\b", code):
                     depth += 1
                 if re.match(r"\s*End\b", code) and depth:
